@@ -1014,6 +1014,9 @@ func (t *Template) parseCatch() *catchNode {
 	peek := t.peekNonSpace()
 	if peek.typ != itemRightDelim {
 		_errVar := t.term()
+		if _errVar == nil {
+			t.unexpected(t.next(), "catch", "error variable or closing delimiter")
+		}
 		if typ := _errVar.Type(); typ != NodeIdentifier {
 			t.errorf("unexpected node type '%s' in catch", typ)
 		}
